@@ -89,7 +89,9 @@ func (c *AuthorizeExplicitGrantHandler) HandleTokenEndpointRequest(ctx context.C
 	// credentials (or assigned other authentication requirements), the
 	// client MUST authenticate with the authorization server as described
 	// in Section 3.2.1.
-	request.SetSession(authorizeRequest.GetSession())
+	// The stored session may be shared with other records of the same grant (for example the access token issued
+	// by the hybrid flow): work on a copy, as the refresh token handler does, before expiries are written to it.
+	request.SetSession(authorizeRequest.GetSession().Clone())
 	request.SetID(authorizeRequest.GetID())
 
 	atLifespan := fosite.GetEffectiveLifespan(request.GetClient(), fosite.GrantTypeAuthorizationCode, fosite.AccessToken, c.Config.GetAccessTokenLifespan(ctx))
